@@ -356,6 +356,23 @@ func runC20(r *ev.Run) {
 				fail("quant.f16.mutates-input", "float16 quantizer modified its input")
 			}
 		}
+		// two reconstructions from one quantiser must be independent of each other
+		if hq2, err := comet.NewQuantizer(comet.HalfPrecision); err == nil {
+			other := make([]float32, dim)
+			for j := range other {
+				other[j] = float32(rng.NormFloat64()*scale) + 1
+			}
+			s1, e1 := hq2.Quantize(v)
+			s2, e2 := hq2.Quantize(other)
+			if e1 == nil && e2 == nil {
+				r1, _ := hq2.Dequantize(s1)
+				keep := cloneF32(r1)
+				hq2.Dequantize(s2)
+				if !sameBits(r1, keep) {
+					fail("quant.f16.result-aliasing", "an earlier Dequantize result changed when another vector was dequantized")
+				}
+			}
+		}
 		// int8
 		iq, err := comet.NewQuantizer(comet.Int8Precision)
 		if err != nil || iq.Type() != comet.Int8Precision {
@@ -414,6 +431,16 @@ func runC20(r *ev.Run) {
 			}
 			if rng.IntN(8) == 0 {
 				w[j] = float32(-absMax)
+			}
+		}
+		if sa, ea := iq.Quantize(v); ea == nil {
+			if sb, eb := iq.Quantize(w); eb == nil {
+				r1, _ := iq.Dequantize(sa)
+				keep := cloneF32(r1)
+				iq.Dequantize(sb)
+				if !sameBits(r1, keep) {
+					fail("quant.i8.result-aliasing", "an earlier Dequantize result changed when another vector was dequantized")
+				}
 			}
 		}
 		for _, x := range [][]float32{v, w} {
